@@ -302,8 +302,10 @@ func runOneSimStream(c simStreamCase) (fails []monFail, info string) {
 		// let outstanding datagrams arrive
 		time.Sleep(500 * time.Millisecond)
 		mu.Lock()
+		gotD := append([][]byte(nil), srvDgrams...) // fail() takes mu itself: check on a copy
+		mu.Unlock()
 		seen := map[string]bool{}
-		for _, d := range srvDgrams {
+		for _, d := range gotD {
 			if !sentD[string(d)] {
 				fail("simstream/dgram-modified", fmt.Sprintf("received datagram %x was never sent", d))
 			}
@@ -312,7 +314,6 @@ func runOneSimStream(c simStreamCase) (fails []monFail, info string) {
 			}
 			seen[string(d)] = true
 		}
-		mu.Unlock()
 		conn.CloseWithError(0, "")
 		if srvConn != nil {
 			select {
